@@ -458,6 +458,127 @@ def _multi_contracts():
     return out
 
 
+def _chained_contracts():
+    """ChainedVisitor.enter / leave: members are the CURRENT `self.visitors`, entered in order and left in reverse, each once per node event; the skip signal of a member is
+    not swallowed (so later members do not enter and the traversal skips the node).  What enter returns (the listed findings about edits through a chain) is not stated here."""
+    SkipNode = __import__("py_gql.lang.visitor", fromlist=["SkipNode"]).SkipNode
+
+    def order(kind):
+        def pred(p):
+            loops = [e for e in p.events if e.startswith("for[")]
+            if not loops:
+                return None
+            if len(loops) != 1:
+                raise T.Unsupported("more than one loop in ChainedVisitor.%s" % kind)
+            it = loops[0][4:-2].replace(" ", "")
+            forward = it in ("self.visitors", "iter(self.visitors)")
+            reverse = it in ("self.visitors[::-1]", "reversed(self.visitors)")
+            if not forward and not reverse:
+                raise T.Unsupported("iteration form %r not recognised" % it)
+            return forward if kind == "enter" else reverse
+        return pred
+
+    def once_per_iteration(kind):
+        def pred(p):
+            if not any(e.startswith("for[") for e in p.events):
+                return None
+            inside, k = False, 0
+            for e in p.events:
+                if e.startswith("for["):
+                    inside, k = True, 0
+                elif e in ("}", "}!"):
+                    inside = False
+                elif e == kind:
+                    if not inside:
+                        return False
+                    k += 1
+                    if k > 1:
+                        return False
+            return True
+        return pred
+
+    def skip_propagates(p):
+        if not any("enter-raises" in t for t in p.trail):
+            return None
+        return p.outcome == "raise"
+
+    def leave_every_member(p):
+        # one abstract iteration: the member's leave is called in it unconditionally
+        if "for[" not in "".join(p.events) or p.outcome != "return":
+            return None
+        body = [e for e in p.events if not e.startswith("for[") and e not in ("}", "}!")]
+        return body == ["leave"] or body == []
+
+    return [
+        dict(id="ChainedVisitor.enter", target="py_gql.lang.visitor:ChainedVisitor.enter", props=["C18"],
+             config=Config(events=[(r"^v\.enter$|^\w+\.enter$", "enter")], raises=[(r"\.enter$", [SkipNode])]),
+             clauses=[("members-in-order", "chained visitors enter in the order of the chain's current `visitors`", order("enter")),
+                      ("one-enter-per-member", "a member's enter is called at most once per node, inside the iteration over the members", once_per_iteration("enter")),
+                      ("skip-signal-propagates", "a member raising the skip signal ends the chain's enter with that signal (later members do not enter, the node is skipped)", skip_propagates)],
+             assumes=["`for x in <tuple>` iterates in index order"]),
+        dict(id="ChainedVisitor.leave", target="py_gql.lang.visitor:ChainedVisitor.leave", props=["C18"],
+             config=Config(events=[(r"^\w+\.leave$", "leave")], nothrow=[r"\.leave$"]),
+             clauses=[("members-in-reverse", "chained visitors leave in the reverse order of the chain's current `visitors`", order("leave")),
+                      ("every-member-leaves-once", "each member's leave is called exactly once per node event and nothing else happens", leave_every_member),
+                      ("one-leave-per-member", "a member's leave is called at most once per node, inside the iteration", once_per_iteration("leave"))],
+             assumes=["`t[::-1]` / `reversed(t)` is t reversed; leave of a member does not raise"]),
+    ]
+
+
+def _middleware_contracts():
+    """apply_middlewares(func, middlewares): every middleware wraps what was built before it exactly once - `tail = partial(mw, tail)` with mw the loop's member - in the
+    order of the sequence (the last middleware is outermost: the documented nesting), and nothing else is applied; a member that is not callable is refused."""
+    import ast
+
+    def partial_label(call, args, kwargs):
+        return "wrap(%s)" % ",".join(ast.unparse(a) for a in call.args)
+
+    def body(p):
+        ev = list(p.events)
+        loops = [i for i, e in enumerate(ev) if e.startswith("for[")]
+        if not loops:
+            return None, None
+        i = loops[0]
+        j = next((k for k in range(i + 1, len(ev)) if ev[k] in ("}", "}!")), len(ev))
+        return ev[i], ev[i + 1:j]
+
+    def wraps_once(p):
+        head, b = body(p)
+        if head is None or p.outcome != "return":
+            return None
+        if b == []:
+            return True
+        if len(b) != 1 or not b[0].startswith("wrap("):
+            return False
+        inner = b[0][5:-1].split(",")
+        # ... and what is returned after an iteration is that wrapping (not the chain of before it)
+        return len(inner) == 2 and inner[1] == "tail" and inner[0] not in ("tail", "func") and "partial(" in (getattr(p.payload, "text", None) or "")
+
+    def in_order(p):
+        head, _b = body(p)
+        if head is None:
+            return None
+        it = head[4:-2].replace(" ", "")
+        if it in ("middlewares", "iter(middlewares)", "list(middlewares)", "tuple(middlewares)"):
+            return True
+        if it in ("middlewares[::-1]", "reversed(middlewares)"):
+            return False
+        raise T.Unsupported("iteration form %r not recognised" % it)
+
+    def starts_from_func(p):
+        # without any middleware the result is the wrapped function itself
+        if p.outcome != "return" or any(e.startswith("wrap(") for e in p.events):
+            return None
+        return (getattr(p.payload, "text", None) or "") == "func"
+
+    return [dict(id="apply_middlewares", target="py_gql._utils:apply_middlewares", props=["C16"],
+                 config=Config(events=[(r"^functools\.partial$|^partial$", partial_label)], nothrow=[r"^functools\.partial$|^partial$", r"^callable$"]),
+                 clauses=[("each-middleware-wraps-once", "in every iteration the member wraps the chain built so far exactly once (tail = partial(member, tail)) and nothing else is applied", wraps_once),
+                          ("sequence-order", "middlewares are applied in the order of the sequence, so the last one is outermost (documented nesting)", in_order),
+                          ("chain-starts-at-the-resolver", "with no middleware (applied) the result is the wrapped function itself", starts_from_func)],
+                 assumes=["functools.partial(f, g)(*a, **k) == f(g, *a, **k); each middleware calls `next` as documented (checked at run time by the stand-in)"])]
+
+
 def _stage_word(p):
     return [e for e in p.events if e in STAGES or e in STAGES.values()]
 
@@ -1524,4 +1645,4 @@ TRACE_CONTRACTS = [
     _extend_contract("_extend_enum_type", [("value.name.value in value_names", "value_names")]),
     _extend_contract("_extend_union_type", [("type_def.name.value in member_names", "member_names")]),
     _extend_contract("_extend_input_object_type", [("ext_field.name.value in field_names", "field_names")], inner="fields"),
-] + _multi_contracts()
+] + _multi_contracts() + _chained_contracts() + _middleware_contracts()
